@@ -1,5 +1,6 @@
 import SeaQ.Model.Util
 import SeaQ.Model.Render
+import SeaQ.Model.Scan
 /-!
 Driver glue for the statement model: reads a statement recipe (S-expression, one constructor
 per AST node; names and text hex-encoded as `h:…`), renders it for a backend and prints
@@ -389,7 +390,10 @@ def run (s : String) : String :=
          if panics ps then "panic"
          else
            let (t, vs) := textP d ps
-           "ok " ++ encodeStr t ++ " [" ++ ",".intercalate (vs.map showVal) ++ "] " ++ encodeStr (textI d ps)
+           -- `safe`: the hypothesis of the C01 / C02 theorems, evaluated on this rendering (both writers)
+           let fl (b : Bool) := if b then "1" else "0"
+           "ok " ++ encodeStr t ++ " [" ++ ",".intercalate (vs.map showVal) ++ "] " ++ encodeStr (textI d ps) ++
+             " safe:" ++ fl (SeaQ.Scan.safe d false false 0 ps) ++ fl (SeaQ.Scan.safe d true false 0 ps)
        | none => "bad-op")
     | _, _ => "bad-op"
   | _ => "bad-op"
